@@ -27,6 +27,7 @@ pub struct Cfg {
     pub odd_padding: bool, // padding that is legal to receive but not what alignment requires
     pub dual_family: bool, // projected templates may carry the IPv4 and the IPv6 address of one side
     pub low_ids: bool,     // template ids below 256, among them the values a version word has (metamorphic checks only)
+    pub twins: bool,       // consecutive definitions of one id that collide under a cheap fingerprint (crate::twins)
 }
 
 impl Default for Cfg {
@@ -50,6 +51,7 @@ impl Default for Cfg {
             odd_padding: false,
             dual_family: false,
             low_ids: false,
+            twins: false,
         }
     }
 }
@@ -94,6 +96,10 @@ pub struct Exporter {
     pub ix_t: BTreeMap<u16, IpfixTmpl>,
     pub ix_o: BTreeMap<u16, IpfixOptTmpl>,
     pub seq: u32,
+    /// the second definition of a fingerprint-twin pair: it is the next template flowset/set this exporter sends
+    pub twin_v9: Option<V9Tmpl>,
+    pub twin_ix: Option<IpfixTmpl>,
+    pub twins_sent: u64,
 }
 
 fn pick_len(rng: &mut Rng, dt: DT, cfg: &Cfg) -> u16 {
@@ -686,7 +692,63 @@ impl Exporter {
         V9FlowSet::OptionsData { tmpl: t.clone(), records, padding }
     }
 
+    fn v9_define(&mut self, t: &V9Tmpl) -> V9FlowSet {
+        self.v9_o.remove(&t.id);
+        self.v9_t.insert(t.id, t.clone());
+        V9FlowSet::Template { templates: vec![t.clone()], padding: vec![] }
+    }
+
+    /// Two definitions of one id, equal in length and colliding under a cheap fingerprint, as
+    /// consecutive template flowsets of this exporter (same packet or the next one), each followed
+    /// by data in its own layout.
+    fn v9_twin_flowsets(&mut self, rng: &mut Rng, cfg: &Cfg) -> Option<Vec<V9FlowSet>> {
+        if !cfg.twins || cfg.projected {
+            return None;
+        }
+        let mut fs = vec![];
+        if let Some(b) = self.twin_v9.take() {
+            if let Some(a) = self.v9_t.get(&b.id).cloned() {
+                if rng.chance(1, 2) {
+                    fs.push(self.v9_data(rng, cfg, &a));
+                }
+            }
+            fs.push(self.v9_define(&b));
+            fs.push(self.v9_data(rng, cfg, &b));
+            self.twins_sent += 1;
+            return Some(fs);
+        }
+        if !rng.chance(1, 3) {
+            return None;
+        }
+        if crate::twins::v9().is_empty() {
+            return None;
+        }
+        let t = rng.pick(crate::twins::v9());
+        if !cfg.cross_kind && self.v9_o.contains_key(&t.id) {
+            return None;
+        }
+        let (a, b) = if rng.chance(1, 2) { (&t.a, &t.b) } else { (&t.b, &t.a) };
+        let (a, b) = (V9Tmpl { id: t.id, fields: a.clone() }, V9Tmpl { id: t.id, fields: b.clone() });
+        fs.push(self.v9_define(&a));
+        fs.push(self.v9_data(rng, cfg, &a));
+        if rng.chance(1, 2) {
+            fs.push(self.v9_define(&b));
+            fs.push(self.v9_data(rng, cfg, &b));
+            self.twins_sent += 1;
+            if rng.chance(1, 3) {
+                fs.push(self.v9_define(&a));
+                fs.push(self.v9_data(rng, cfg, &a));
+            }
+        } else {
+            self.twin_v9 = Some(b);
+        }
+        Some(fs)
+    }
+
     pub fn v9_packet(&mut self, rng: &mut Rng, cfg: &Cfg, pools: &Pools) -> V9Pkt {
+        if let Some(fs) = self.v9_twin_flowsets(rng, cfg) {
+            return self.v9_wrap(rng, cfg, fs);
+        }
         let nfs = 1 + rng.usize(5);
         let mut flowsets = vec![];
         for _ in 0..nfs {
@@ -920,7 +982,61 @@ impl Exporter {
         IpfixSet::Data { id, options, fields: fields.to_vec(), records, padding }
     }
 
+    fn ipfix_define(&mut self, t: &IpfixTmpl) -> IpfixSet {
+        self.ix_o.remove(&t.id);
+        self.ix_t.insert(t.id, t.clone());
+        IpfixSet::Template { records: vec![t.clone()], padding: vec![] }
+    }
+
+    fn ipfix_twin_sets(&mut self, rng: &mut Rng, cfg: &Cfg) -> Option<Vec<IpfixSet>> {
+        if !cfg.twins || cfg.projected {
+            return None;
+        }
+        let mut s = vec![];
+        if let Some(b) = self.twin_ix.take() {
+            if let Some(a) = self.ix_t.get(&b.id).cloned() {
+                if rng.chance(1, 2) {
+                    s.push(self.ipfix_data(rng, cfg, a.id, false, &a.fields));
+                }
+            }
+            s.push(self.ipfix_define(&b));
+            s.push(self.ipfix_data(rng, cfg, b.id, false, &b.fields));
+            self.twins_sent += 1;
+            return Some(s);
+        }
+        if !rng.chance(1, 3) {
+            return None;
+        }
+        if crate::twins::ipfix().is_empty() {
+            return None;
+        }
+        let t = rng.pick(crate::twins::ipfix());
+        if !cfg.cross_kind && self.ix_o.contains_key(&t.id) {
+            return None;
+        }
+        let spec = |f: &Vec<(u16, u16)>| -> Vec<IpfixSpec> { f.iter().map(|x| IpfixSpec { type_num: x.0, len: x.1, enterprise: None }).collect() };
+        let (a, b) = if rng.chance(1, 2) { (&t.a, &t.b) } else { (&t.b, &t.a) };
+        let (a, b) = (IpfixTmpl { id: t.id, fields: spec(a) }, IpfixTmpl { id: t.id, fields: spec(b) });
+        s.push(self.ipfix_define(&a));
+        s.push(self.ipfix_data(rng, cfg, a.id, false, &a.fields));
+        if rng.chance(1, 2) {
+            s.push(self.ipfix_define(&b));
+            s.push(self.ipfix_data(rng, cfg, b.id, false, &b.fields));
+            self.twins_sent += 1;
+            if rng.chance(1, 3) {
+                s.push(self.ipfix_define(&a));
+                s.push(self.ipfix_data(rng, cfg, a.id, false, &a.fields));
+            }
+        } else {
+            self.twin_ix = Some(b);
+        }
+        Some(s)
+    }
+
     pub fn ipfix_msg(&mut self, rng: &mut Rng, cfg: &Cfg, pools: &Pools) -> IpfixMsg {
+        if let Some(s) = self.ipfix_twin_sets(rng, cfg) {
+            return self.ipfix_wrap(rng, s);
+        }
         let ns = 1 + rng.usize(5);
         let mut sets = vec![];
         for _ in 0..ns {
